@@ -2,7 +2,7 @@
   C01 — small models of the loop-carrying / choice-making cores of the renderer whose totality is
   what "rendering terminates without crashing" rests on.  Each mirrors the Go code that exists.
 
-  * `pickRoot`      html/tree/tree.go NewHTML (lines 53-64): which child of the document node becomes
+  * `pickRoot`      html/tree/tree.go NewHTML (lines 60-68): which child of the document node becomes
                     the root element.
   * `pageLoop`      html/layout/pages.go makeAllPages / remakePage: the page loop, abstract in the
                     per-page layout function.
@@ -28,22 +28,23 @@ inductive Root where
   | node (index : Nat) (k : Kind)
   deriving DecidableEq, Repr
 
-/-- tree.go:53-64 as written:
-    `out.Root = root.FirstChild; if out.Root.Type == DoctypeNode { out.Root = out.Root.NextSibling }`. -/
-def pickRoot : List Kind → Root
-  | [] => .error
-  | .doctype :: [] => .nilDeref
-  | .doctype :: k :: _ => .node 1 k
-  | k :: _ => .node 0 k
-
-/-- The proposed repair: take the first element child (skipping doctype and comments). -/
-def pickRootFixed : List Kind → Root :=
+/-- tree.go:60-68 (since commit d4860cc): skip the doctype and the comments before the root element;
+    `invalid html input : no root element` if there is none. -/
+def pickRoot : List Kind → Root :=
   go 0
 where
   go (i : Nat) : List Kind → Root
     | [] => .error
     | .element t :: _ => .node i (.element t)
     | _ :: rest => go (i + 1) rest
+
+/-- The code before d4860cc, kept for the record of the defect the proof attempt found:
+    `out.Root = root.FirstChild; if out.Root.Type == DoctypeNode { out.Root = out.Root.NextSibling }`. -/
+def pickRootBefore : List Kind → Root
+  | [] => .error
+  | .doctype :: [] => .nilDeref
+  | .doctype :: k :: _ => .node 1 k
+  | k :: _ => .node 0 k
 
 /-- Shape of the document node's children as produced by `html.Parse` (recorded assumption):
     optional doctype, comments, exactly one element `html`, comments. -/
